@@ -9,7 +9,7 @@
 (* the implementation-shaped specification in a way no listed property     *)
 (* forbids (specification drift), never a property violation.              *)
 (***************************************************************************)
-EXTENDS N2Store, TLC, Json, IOUtils
+EXTENDS N2Store, N2Sched, TLC, Json, IOUtils
 
 Rec == ndJsonDeserialize(IOEnv.TRACE)
 
@@ -28,18 +28,19 @@ Cov0 == [scn |-> 0, inv |-> 0, start |-> 0, finish |-> 0, fail |-> 0, intr |-> 0
          skipAfterChange |-> 0, reload |-> 0, repeatInv |-> 0, adoptRec |-> 0,
          discRec |-> 0, outsideClosure |-> 0, keptGoing |-> 0, stall |-> 0,
          crash |-> 0, kill |-> 0, cycle |-> 0, unknownPath |-> 0, multiOrder |-> 0,
-         loadedRec |-> 0, valRun |-> 0, badgraph |-> 0]
+         loadedRec |-> 0, valRun |-> 0, badgraph |-> 0, expect |-> 0]
 
 Fresh(id, fam, viol, cov) ==
   [scn |-> id, fam |-> fam,
    manif |-> <<>>, file |-> <<>>, log |-> <<>>,
    g |-> EmptyG, inv |-> NoInv, workNo |-> 0, bad |-> FALSE,
    cur |-> <<>>, st |-> <<>>,
+   iv |-> SchedInit(EmptyG), pq |-> <<>>, pr |-> <<>>, owed |-> {}, fout |-> <<>>,
    started |-> {}, finOK |-> {}, finFail |-> {}, intr |-> {}, run |-> {},
    nOK |-> 0, p1ok |-> FALSE, pend |-> NoPend, lastDF |-> 0,
    shown |-> "", shownMsvc |-> FALSE, lastFin |-> 0, lastReads |-> <<>>, lastHasDep |-> FALSE,
    prevOK |-> FALSE, prevTargets |-> <<>>, prevFile |-> "", changed |-> TRUE, repeat |-> FALSE,
-   inInv |-> FALSE, errSeen |-> FALSE,
+   inInv |-> FALSE, errSeen |-> FALSE, lastOk |-> FALSE, p1names |-> {},
    viol |-> viol, cov |-> cov]
 
 Init == l = 1 /\ w = Fresh("", "", {}, Cov0)
@@ -63,6 +64,10 @@ T2(g) == IF UnknownTargets(g) # {} THEN {} ELSE TargetFiles(g, w.inv.targets, MF
 \* The whole wanted closure of the current Work.
 W(g) == IF w.workNo = 1 THEN W1(g) \cup Needed(g, T2(g)) ELSE Needed(g, T2(g))
 
+\* What want_file may be asked for: n2 resolves the names in order and stops at the first
+\* unknown one, so the closure of the known names before it may already have been wanted (and
+\* nothing is run: C18).
+WScope(g) == W(g) \cup Needed(g, {t \in Range(w.inv.targets) : KnownName(g, t)} \ {MFile})
 CurRec(s) == IF s \in DOMAIN w.cur THEN w.cur[s] ELSE NoRec
 DirtyNow(g, s) == Dirty(g, w.file, CurRec(s), s)
 StOf(s) == IF s \in DOMAIN w.st THEN w.st[s] ELSE "Unknown"
@@ -87,6 +92,15 @@ ApplyWrites(file, ws) ==
       last(p) == ws[MaxOf({i \in DOMAIN ws : ws[i].path = p})].mt
   IN  [p \in names |-> last(p)] @@ file
 
+\* The implementation view (DESIGN 12.9): the scheduler's bookkeeping as N2Work models it,
+\* advanced with N2Sched's operators from the `set` events of the real BuildStates::set.
+PoolNames(g) == {"", "console"} \cup {g.pools[i][1] : i \in DOMAIN g.pools}
+                   \cup {PoolOf(g, s) : s \in StepIds(g)}
+CountsSeq(c) == <<c["Want"], c["Ready"], c["Queued"], c["Running"], c["Done"], c["Failed"]>>
+NRunModel == Cardinality({x \in DOMAIN w.iv.st : w.iv.st[x] = "Running"})
+\* Pending promotions must have been made before anything else happens.
+OwedLbl == Lbl({"CONF"}, "promotion-missed", w.owed = {})
+
 ---------------------------------------------------------------------------
 \* One operator per event kind: the next mirrored state.
 
@@ -104,9 +118,10 @@ DoInvoke(ev) ==
       rep == w.prevOK /\ ~w.changed /\ ev.targets = w.prevTargets /\ ev.file = w.prevFile
   IN [w EXCEPT !.inv = inv, !.workNo = 0, !.bad = FALSE, !.g = EmptyG,
                !.cur = <<>>, !.st = <<>>,
+               !.iv = SchedInit(EmptyG), !.pq = <<>>, !.pr = <<>>, !.owed = {}, !.fout = <<>>,
                !.started = {}, !.finOK = {}, !.finFail = {}, !.intr = {}, !.run = {},
                !.nOK = 0, !.p1ok = FALSE, !.pend = NoPend, !.lastDF = 0, !.lastFin = 0,
-               !.repeat = rep, !.inInv = TRUE, !.errSeen = FALSE,
+               !.repeat = rep, !.inInv = TRUE, !.errSeen = FALSE, !.p1names = {},
                !.cov = BumpIf(Bump(@, "inv"), "repeatInv", rep)]
 
 DoWork(ev) ==
@@ -128,6 +143,10 @@ DoWork(ev) ==
   IN [w EXCEPT !.g = g2, !.workNo = ev.n, !.bad = ~same,
                !.cur = IF same THEN ld ELSE <<>>,
                !.st = [s \in StepIds(g2) |-> "Unknown"],
+               !.iv = SchedInit(g2),
+               !.pq = [q \in PoolNames(g2) |-> {}], !.pr = [q \in PoolNames(g2) |-> 0],
+               !.owed = {}, !.fout = <<>>,
+               !.p1names = IF ev.n = 2 /\ ~w.bad THEN {w.g.steps[s].outs[1] : s \in w.started} ELSE {},
                !.started = {}, !.finOK = {}, !.finFail = {}, !.intr = {}, !.run = {},
                !.pend = NoPend, !.lastDF = 0,
                !.viol = @ \cup v,
@@ -138,12 +157,48 @@ DoSet(ev) ==
   LET g == w.g
       s == ev.id
       okid == s \in StepIds(g)
+      new == ev.new
+      q == PoolOf(g, s)
       norec == /\ ev.new = "Done" /\ ev.prev = "Running" /\ w.pend.s = s
                /\ MissingOf(g, w.file, s, w.pend.deps) = {}
+      \* N2Work's bookkeeping applied to the mirrored state
+      iv2 == SchedSet(g, w.iv, s :> new)
+      pq2 == IF new = "Queued" THEN [w.pq EXCEPT ![q] = @ \cup {s}]
+             ELSE IF new = "Running" THEN [w.pq EXCEPT ![q] = @ \ {s}] ELSE w.pq
+      pr2 == IF new = "Running" THEN [w.pr EXCEPT ![q] = @ + 1]
+             ELSE IF ev.prev = "Running" THEN [w.pr EXCEPT ![q] = @ - 1] ELSE w.pr
+      \* what the code's pool table shows at the hook: running after the change; the queue
+      \* before the step itself is pushed (enqueue pushes after set)
+      expPools == {<<p, pr2[p], Cardinality(pq2[p]) - (IF new = "Queued" /\ p = q THEN 1 ELSE 0)>> :
+                     p \in {x \in PoolNames(g) : PoolDepth(g, x) >= 0}}
+      shownPools == {t \in expPools : t[2] > 0 \/ t[3] > 0}
+      fo == IF s \in DOMAIN w.fout THEN w.fout[s] ELSE ""
+      \* the guard of the N2Work action this transition belongs to
+      guard ==
+        CASE ev.prev = "Unknown" -> /\ s \in WScope(g)
+                                    /\ (new = "Ready") = SchedReadyNow(g, w.iv.st, s)
+          [] ev.prev = "Want" /\ new = "Want" -> s \in WScope(g) /\ ~SchedReadyNow(g, w.iv.st, s)
+          [] ev.prev = "Want" -> s \in w.owed
+          [] ev.prev = "Ready" /\ new = "Done" -> w.inv.adopt \/ ~DirtyNow(g, s)
+          [] ev.prev = "Ready" /\ new = "Queued" -> DirtyNow(g, s) /\ ~w.inv.adopt
+          [] ev.prev = "Queued" -> /\ s \in w.pq[q] /\ NRunModel < w.inv.j
+                                   /\ PoolDepth(g, q) >= 0 /\ SchedPoolHasRoom(g, w.pr, q)
+          [] ev.prev = "Running" /\ new = "Done" -> fo = "ok"
+          [] ev.prev = "Running" /\ new = "Failed" -> fo = "fail"
+          [] OTHER -> TRUE
+      owed2 == IF new = "Done" THEN SchedPromoted(g, w.iv.st, s)
+               ELSE IF ev.prev = "Want" THEN w.owed \ {s} ELSE {}
       v == Lbl({"CONF"}, "set-prev", okid /\ StOf(s) = ev.prev)
            \cup Lbl({"C02"}, "no-record", ~norec)
+           \cup Lbl({"CONF"}, "set-illegal", <<ev.prev, new>> \in SchedLegal \cup {SchedRewant})
+           \cup Lbl({"CONF"}, "set-guard", guard)
+           \cup Lbl({"CONF"}, "set-counts", ev.counts = CountsSeq(iv2.counts))
+           \cup Lbl({"CONF"}, "set-pending", ev.pending = iv2.pending)
+           \cup Lbl({"CONF"}, "set-pools", Range(ev.pools) = shownPools)
+           \cup (IF ev.prev = "Want" THEN {} ELSE OwedLbl)
   IN IF w.bad \/ ~okid THEN [w EXCEPT !.viol = @ \cup Lbl({"CONF"}, "bad-graph", w.bad)]
      ELSE [w EXCEPT !.st = (s :> ev.new) @@ @,
+                    !.iv = iv2, !.pq = pq2, !.pr = pr2, !.owed = owed2,
                     !.pend = IF w.pend.s = s /\ ev.new = "Done" THEN NoPend ELSE @,
                     !.viol = @ \cup v]
 
@@ -193,6 +248,9 @@ DoFinish(ev) ==
       deps == DiscoveredFrom(g, s, ev.reported)
       v == Lbl({"CONF"}, "not-running", s \in w.run)
            \cup Lbl({"C16"}, "outdir", ev.dirsok)
+           \cup Lbl({"C16"}, "rspfile-disk",
+                  ("rspdisk" \in DOMAIN ev /\ s \in StepIds(g) /\ g.steps[s].hasrsp)
+                     => ev.rspdisk = g.steps[s].rspc)
       cov == BumpIf(BumpIf(BumpIf(Bump(w.cov, "finish"), "fail", ev.out = "fail"),
                 "intr", ev.out = "intr"), "multiOrder", Len(ev.cands) > 1)
   IN IF w.bad \/ s \notin StepIds(g) THEN [w EXCEPT !.viol = @ \cup Lbl({"CONF"}, "bad-graph", w.bad)]
@@ -204,6 +262,7 @@ DoFinish(ev) ==
                     !.p1ok = @ \/ (ok /\ w.workNo = 1 /\ HasProducer(g, MFile) /\ s \in W1(g)),
                     !.file = file2, !.manif = manif2,
                     !.pend = IF ok THEN [s |-> s, deps |-> deps] ELSE NoPend,
+                    !.fout = (s :> ev.out) @@ @,
                     !.lastFin = s, !.shown = ev.shown, !.shownMsvc = g.steps[s].msvc,
                     !.lastReads = ev.reads, !.lastHasDep = ev.hasdeps,
                     !.viol = @ \cup v, !.cov = cov]
@@ -256,8 +315,10 @@ DoPu(ev) ==
            \cup Lbl({"C19"}, "running", c[4] = Cardinality(w.run))
            \cup Lbl({"C19"}, "failed", c[6] = Cardinality(w.finFail))
            \cup Lbl({"C19"}, "monotone", df >= w.lastDF)
+           \cup OwedLbl
+           \cup Lbl({"CONF"}, "pu-counts", c = CountsSeq(w.iv.counts))
   IN IF w.bad THEN w
-     ELSE [w EXCEPT !.lastDF = df, !.viol = @ \cup v, !.cov = Bump(@, "pu")]
+     ELSE [w EXCEPT !.lastDF = df, !.owed = {}, !.viol = @ \cup v, !.cov = Bump(@, "pu")]
 
 ValidCycle(g, cyc) ==
   /\ Len(cyc) >= 2 /\ cyc[1] = cyc[Len(cyc)]
@@ -325,13 +386,34 @@ DoEnd(ev) ==
                 "keptGoing", loaded /\ ~ok /\ ev.err = "" /\ w.finOK # {} /\ w.finFail # {}),
                 "outsideClosure", loaded /\ ok /\ \E s \in StepIds(g) \ Wn : DirtyNow(g, s)),
                 "cleanSkip", loaded /\ ok /\ \E s \in np : s \notin w.started)
+      \* N2Work's exits: ExitDone needs pending = 0; a failed exit leaves nothing startable
+      vexit == (IF loaded THEN OwedLbl ELSE {})
+               \cup Lbl({"CONF"}, "exit-pending", (loaded /\ ok) => w.iv.pending = 0)
+               \cup Lbl({"CONF"}, "exit-consistent", loaded => SchedConsistent(g, w.iv))
       vdead == Lbl({"C06"}, "hang", ev.dead \notin {"hang", "livelock"})
-  IN [w EXCEPT !.viol = IF dead THEN @ \cup vdead ELSE @ \cup v,
+  IN [w EXCEPT !.viol = IF dead THEN @ \cup vdead ELSE @ \cup v \cup vexit,
                !.cov = IF dead THEN @ ELSE cov,
-               !.inInv = FALSE,
+               !.inInv = FALSE, !.lastOk = (~dead /\ ok),
                !.prevOK = ~dead /\ ok /\ loaded /\ ~w.inv.adopt /\ allExist /\ w.workNo = 1,
                !.prevTargets = w.inv.targets, !.prevFile = w.inv.file,
                !.changed = FALSE]
+
+\* After an invocation of a history generated from N2Hist: what the history model predicted
+\* for it (TLC computed the prediction while generating the behaviour).  n2 ran a command the
+\* model's rule calls clean: C03; it did not run one the model says must run: C02.
+DoExpect(ev) ==
+  LET g == w.g
+      ranNames == w.p1names \cup {g.steps[s].outs[1] : s \in w.started}
+      recNow == {s \in StepIds(g) : CurRec(s).tok # ""}
+      v == Lbl({"C03"}, "model-ran-extra", ranNames \subseteq Range(ev.ran))
+           \cup Lbl({"C02"}, "model-ran-missing", Range(ev.ran) \subseteq ranNames)
+           \* (a requested name the new manifest does not have is C18's business, decided at `end`)
+           \cup Lbl({"C05"}, "model-exit", ev.unknown = <<>> => ev.ok = w.lastOk)
+           \cup Lbl({"C09"}, "model-deps", \A s \in StepIds(g) :
+                    (s \in DOMAIN ev.deps /\ s \in recNow) => CurRec(s).deps = ev.deps[s])
+           \cup Lbl({"C02", "C08"}, "model-recorded", recNow = Range(ev.recorded))
+  IN IF w.bad \/ w.workNo = 0 THEN w
+     ELSE [w EXCEPT !.viol = @ \cup v, !.cov = Bump(@, "expect")]
 
 DoStall(ev) ==
   [w EXCEPT !.viol = @ \cup Lbl({"C06", "C01", "C09"}, "stall", FALSE), !.cov = Bump(@, "stall")]
@@ -357,13 +439,14 @@ EvPu       == At("pu")       /\ w' = DoPu(Ev)
 EvEnd      == At("end")      /\ w' = DoEnd(Ev)
 EvStall    == At("stall")    /\ w' = DoStall(Ev)
 EvKill     == At("kill")     /\ w' = DoKill(Ev)
+EvExpect   == At("expect")   /\ w' = DoExpect(Ev)
 \* Events that carry no obligation of their own.
 EvOther    == /\ l <= Len(Rec)
               /\ Rec[l].e \in {"done", "ps", "pl", "note"}
               /\ l' = l + 1 /\ w' = w
 
 Next == \/ EvScn \/ EvManifest \/ EvFs \/ EvInvoke \/ EvWork \/ EvSet \/ EvStart
-        \/ EvFinish \/ EvPf \/ EvDbw \/ EvPu \/ EvEnd \/ EvStall \/ EvKill \/ EvOther
+        \/ EvFinish \/ EvPf \/ EvDbw \/ EvPu \/ EvEnd \/ EvStall \/ EvKill \/ EvExpect \/ EvOther
 
 Spec == Init /\ [][Next]_vars
 
